@@ -3,9 +3,10 @@
 goes to not_applicable with the reason recorded in checks.json["_not_claimed"])."""
 import json, os
 V = os.path.dirname(os.path.abspath(__file__))
-cfg = json.load(open(os.path.join(V, "checks.json")))
+import glob
+cfg = {os.path.basename(p)[:-5]: json.load(open(p)) for p in sorted(glob.glob(os.path.join(V, "checks.d", "*.json")))}
 props = [json.loads(l) for l in open(os.path.join(V, "properties.jsonl")) if l.strip()]
-not_claimed = cfg.get("_not_claimed", {})
+not_claimed = json.load(open(os.path.join(V, "not_claimed.json"))) if os.path.exists(os.path.join(V, "not_claimed.json")) else {}
 checks, na = [], []
 for p in props:
     pid = p["id"]
